@@ -483,6 +483,9 @@ fn run_family<const D: usize>(rep: &Report, cn: &Cn, family: &str, alphabet: &[[
 
 fn main() {
     let args = parse_args();
+    if let Some(p) = &args.replay {
+        std::process::exit(vcore::replay::generic(p));
+    }
     silence_panics();
     let rep = Report::new("C05", &args);
     vcore::exact::self_check();
